@@ -311,3 +311,87 @@ func c05NullIsAValue(c *Ctx, r *Result) {
 }
 
 var _ = strings.HasPrefix
+
+// ---- R13d: the runtime provider is shared by the parses that use it ------------------------------
+
+// ParseWithRuntime calls rp.Runtime(node) for every node. One provider serves every parse of an
+// interpreter (imports, sink threads parsing string interpolations, the CLI), so what Runtime and
+// the component constructors it calls write into the provider is shared mutable state exactly like
+// a package-level variable: a memo of "the last node kind" makes one parse build nodes with the
+// other parse's constructor. No function on that path may write memory reached from a value of a
+// type implementing parser.RuntimeProvider.
+func c13SharedProvider(c *Ctx, r *Result) {
+	iface := c.Interface("parser", "RuntimeProvider")
+	if iface == nil {
+		r.Undecide("R13d: parser.RuntimeProvider not found")
+		return
+	}
+	impls := c.Implementations(iface, "Runtime")
+	isProvider := func(t types.Type) bool {
+		n := namedOf(t)
+		if n == nil {
+			return false
+		}
+		return types.Implements(types.NewPointer(n), iface) || types.Implements(n, iface)
+	}
+	n := 0
+	for _, impl := range impls {
+		if !c.inModule(impl) {
+			continue
+		}
+		// the implementation, its static callees in its package, and the constructors of its table
+		// (dynamic calls of functions taking the provider first)
+		set := map[*ssa.Function]bool{}
+		var order []*ssa.Function
+		var add func(fn *ssa.Function, d int)
+		add = func(fn *ssa.Function, d int) {
+			if fn == nil || set[fn] || len(fn.Blocks) == 0 || !c.inModule(fn) || d > 4 {
+				return
+			}
+			set[fn] = true
+			order = append(order, fn)
+			allInstrs(fn, func(in ssa.Instruction) {
+				ci, ok := in.(ssa.CallInstruction)
+				if !ok {
+					return
+				}
+				if f := ci.Common().StaticCallee(); f != nil {
+					add(f, d+1)
+					return
+				}
+				if ci.Common().IsInvoke() {
+					return
+				}
+				for _, f := range c.Callees(ci) {
+					if len(f.Params) > 0 && isProvider(f.Params[0].Type()) {
+						add(f, d+1)
+					}
+				}
+			})
+		}
+		add(impl, 0)
+		for _, fn := range order {
+			key := c.FuncKey(fn)
+			ord := newOrdinals()
+			for _, w := range WritesOf(fn) {
+				if w.Kind != WParam {
+					continue
+				}
+				p, isP := w.Root.(*ssa.Parameter)
+				if !isP || !isProvider(p.Type()) {
+					continue
+				}
+				// memory behind the provider reached through a lock-protected table is C12's business;
+				// here: any write into the provider object or what it points to
+				site := ord.key(key, w.What, accessPath(w.Target))
+				pos := c.Pos(c.InstrPos(w.Instr))
+				n++
+				r.Instance("R13d", site, pos, "finding", "write into the shared runtime provider on the parse path", true)
+				r.Report(Finding{Rule: "R13d", Site: site, Pos: pos,
+					Msg: fmt.Sprintf("%s: %s to %s, memory of the runtime provider, on the path ParseWithRuntime → RuntimeProvider.Runtime: the provider is shared by every parse of the interpreter (imports, interpolated strings on sink threads), overlapping parses race on it and build nodes from each other's state", key, w.What, accessPath(w.Target))})
+			}
+		}
+		r.Instance("R13d", c.FuncKey(impl)+"#reach", c.Pos(impl.Pos()), "ok", fmt.Sprintf("%d function(s) on the provider path examined for writes into the provider", len(order)), true)
+		r.Floor("R13d-functions", len(order), 40)
+	}
+}
